@@ -7,8 +7,9 @@ import canon
 import termref
 from canon import coq_fs, coq_cells, coq_bool
 from curtsies.window import FullscreenWindow
-from curtsies.formatstringarray import fsarray
+from curtsies.formatstringarray import fsarray, FSArray
 from curtsies import fmtfuncs
+from curtsies.formatstring import FmtStr, fmtstr
 
 ID = "C02"
 LEVEL = "proof"
@@ -113,7 +114,7 @@ def rand_history(rng):
                 rows.append(reformat(rng, last_rows[i]))
             else:
                 rows.append(rand_row(rng, rng.choice([0, 1, max(0, cur_w - 1), cur_w, cur_w, cur_w + 1, cur_w + 3])))
-        kind = "fsarray" if rng.random() < 0.3 else "list"
+        kind = rng.choices(["fsarray", "fsarray_rowassign", "list"], [25, 12, 63])[0]
         ops.append(["render", kind, rows, [rng.randrange(cur_h), rng.randrange(cur_w)]])
         last_rows = rows
         last_size = (cur_h, cur_w)
@@ -214,7 +215,16 @@ def _run(inp):
                 rows = [build_row(r, prev) for r in op[2]]
                 prev = rows
                 res["arrays"].append([canon_row(r) for r in rows])
-                arr = fsarray(rows) if op[1] == "fsarray" else rows
+                if op[1] == "fsarray":
+                    arr = fsarray(rows)
+                elif op[1] == "fsarray_rowassign":
+                    # an FSArray no wider than the terminal whose rows were stored by integer-index assignment
+                    # (a[i] = row keeps the row as it is): rows may be longer than the array's own width
+                    arr = FSArray(len(rows), min([_SIZE[1]] + [max(len(r) for r in rows)] if rows else [0]))
+                    for i, r in enumerate(rows):
+                        arr[i] = r if isinstance(r, FmtStr) else fmtstr(r)
+                else:
+                    arr = rows
                 try:
                     w.render_to_terminal(arr, tuple(op[3]))
                     res["renders"].append(take())
@@ -307,5 +317,5 @@ def shrink(inp):
                 if r[0] == "fs":
                     plain = ["str", "".join(s for s, _ in r[1])]
                     yield dict(inp, ops=ops[:i] + [[op[0], op[1], rows[:j] + [plain] + rows[j + 1:], op[3]]] + ops[i + 1:])
-            if op[1] == "fsarray":
+            if op[1] != "list":
                 yield dict(inp, ops=ops[:i] + [[op[0], "list", rows, op[3]]] + ops[i + 1:])
